@@ -399,3 +399,85 @@ Section C01.
       apply String.eqb_eq in HA. subst. reflexivity.
   Qed.
 End C01.
+
+(* ------------------------------------------------------------------ *)
+(* totality: a conforming value whose enum members have values is always encoded, so
+   the round-trip theorem is not vacuous for any such value *)
+Section Total.
+  Variable E : senv.
+  Variable P : prims.
+
+  Definition enc_total_ok (v: pv) : Prop :=
+    forall t, conf E v t = true -> vals_ok P v = true -> exists w, ref_enc E P v t = Ok w.
+
+  Lemma mapM_total (l: list pv) t' :
+    Forall enc_total_ok l -> forallb (fun x => conf E x t') l = true -> forallb (vals_ok P) l = true ->
+    exists r, mapM (fun x => ref_enc E P x t') l = Ok r.
+  Proof.
+    intros HF. induction HF as [|x l Hx HF IH]; intros HC HV.
+    - exists []. reflexivity.
+    - cbn [forallb] in HC, HV. apply andb_prop in HC. destruct HC as [Cx Cl]. apply andb_prop in HV. destruct HV as [Vx Vl].
+      destruct (Hx t' Cx Vx) as [y Ey]. destruct (IH Cl Vl) as [ys Eys].
+      exists (y :: ys). cbn [mapM]. rewrite Ey, Eys. reflexivity.
+  Qed.
+
+  Theorem ref_enc_total : forall v, enc_total_ok v.
+  Proof.
+    induction v as [ | b | z | f | s | m b | l IHl | l IHl | fr l IHl | kvs IHk | c fs IHf | e m | k w | c l IHl | tg ]
+      using pv_rect'; unfold enc_total_ok.
+    all: intros t; induction t as [ | | | | | | m' | k' | e' | t' IHt | fr' t' IHt | t' IHt | ts | kt IHkt vt IHvt | t' IHt | c' ];
+      intros HC HV; rewrite conf_unfold in HC; try discriminate HC;
+      rewrite ref_enc_unfold; try (eexists; reflexivity).
+    (* Optional of a non-None value *)
+    all: try solve [ cbn [is_none orb] in HC |- *; apply (IHt HC HV) ].
+    (* homogeneous containers *)
+    all: try solve [ try (apply andb_prop in HC; destruct HC as [_ HC]);
+                     rewrite vals_ok_unfold in HV; apply andb_prop in HV; destruct HV as [_ HVl];
+                     destruct (mapM_total l t' IHl HC HVl) as [r Er]; rewrite Er; eexists; reflexivity ].
+    - (* fixed tuple *)
+      rewrite vals_ok_unfold in HV. apply andb_prop in HV. destruct HV as [_ HVl].
+      match goal with |- exists w, bind ?X _ = _ => assert (Hgo: exists r, X = Ok r) end;
+        [|destruct Hgo as [r Er]; rewrite Er; eexists; reflexivity].
+      revert ts HC. induction l as [|x l IHl']; intros ts HC.
+      + destruct ts; [|discriminate HC]. exists []. reflexivity.
+      + destruct ts as [|t1 ts]; [discriminate HC|].
+        apply andb_prop in HC. destruct HC as [Cx Cl]. cbn [forallb] in HVl. apply andb_prop in HVl. destruct HVl as [Vx Vl].
+        inversion IHl as [|? ? Qx Ql]; subst.
+        destruct (Qx t1 Cx Vx) as [y Ey]. destruct (IHl' Ql Vl ts Cl) as [ys Eys].
+        exists (y :: ys). rewrite Ey. cbn [bind]. rewrite Eys. reflexivity.
+    - (* dict *)
+      apply andb_prop in HC. destruct HC as [_ HC].
+      rewrite vals_ok_unfold in HV. apply andb_prop in HV. destruct HV as [_ HVl].
+      match goal with |- exists w, bind ?X _ = _ => assert (Hgo: exists r, X = Ok r) end;
+        [|destruct Hgo as [r Er]; rewrite Er; eexists; reflexivity].
+      clear IHkt IHvt. induction kvs as [|[k x] kvs IHkvs].
+      + exists []. reflexivity.
+      + cbn [forallb] in HC, HVl.
+        apply andb_prop in HC. destruct HC as [Ckx Cl]. apply andb_prop in Ckx. destruct Ckx as [Ck Cx].
+        apply andb_prop in HVl. destruct HVl as [Vkx Vl]. apply andb_prop in Vkx. destruct Vkx as [Vk Vx].
+        inversion IHk as [|? ? [Qk Qx] Qkvs]; subst. cbn [fst snd] in Qk, Qx.
+        destruct (Qk kt Ck Vk) as [k1 Ek]. destruct (Qx vt Cx Vx) as [x1 Ex]. destruct (IHkvs Qkvs Cl Vl) as [ys Eys].
+        exists ((k1, x1) :: ys). cbn [mapM]. rewrite Ek. cbn [bind]. rewrite Ex. cbn [bind]. rewrite Eys. reflexivity.
+    - (* dataclass *)
+      apply andb_prop in HC. destruct HC as [_ HC].
+      destruct (sfind E c') as [k0|]; [|discriminate HC].
+      rewrite vals_ok_unfold in HV. apply andb_prop in HV. destruct HV as [_ HVf].
+      match goal with |- exists w, bind ?X _ = _ => assert (Hgo: exists r, X = Ok r) end;
+        [|destruct Hgo as [r Er]; rewrite Er; eexists; reflexivity].
+      revert HC. generalize (sc_fields k0) as fds. intros fds. revert fds.
+      induction fs as [|[n x] fs IHfs]; intros fds HC.
+      + destruct fds; [|discriminate HC]. exists []. reflexivity.
+      + destruct fds as [|f fds]; [discriminate HC|].
+        apply andb_prop in HC. destruct HC as [HC Cr]. apply andb_prop in HC. destruct HC as [Hn Cx].
+        cbn [forallb] in HVf. apply andb_prop in HVf. destruct HVf as [Vx Vr].
+        inversion IHf as [|? ? Qx Qr]; subst. cbn [snd] in Qx.
+        destruct (IHfs Qr Vr fds Cr) as [tl Etl]. rewrite Hn.
+        destruct (sfield_nullable f && is_none x) eqn:Hnull.
+        * exists ((VStr (sf_name f), VNone) :: tl). cbn [bind]. rewrite Etl. reflexivity.
+        * cbn [orb] in Cx. destruct (Qx (sf_ty f) Cx Vx) as [y Ey]. rewrite Ey. cbn [bind]. rewrite Etl.
+          eexists. reflexivity.
+    - (* enum *)
+      rewrite vals_ok_unfold in HV. apply andb_prop in HV. destruct HV as [HA _]. cbn [atom_ok] in HA.
+      destruct (p_enum_value P e m) as [val|]; [|discriminate HA]. eexists. reflexivity.
+  Qed.
+End Total.
